@@ -142,7 +142,9 @@ class SdeintHooks(Hooks):
             nm = callee.fi.name
             if nm == "check_contract":
                 self.check_args.append(list(args))
-                sde, y0, ts, bm, method, adaptive, options, names, logqp = args
+                bound = dict(zip(callee.fi.params, args))
+                bound.update(kwargs)
+                y0, ts, bm, method, options = (bound.get(k) for k in ("y0", "ts", "bm", "method", "options"))
                 return (Obj("fwd-sde", attrs={"sde_type": "stratonovich", "noise_type": "diagonal",
                                               "parameters": Intrinsic("parameters", lambda it, a, k, n, f: [nf.sym("theta")])}),
                         y0, ts, bm, method, options)
@@ -190,7 +192,20 @@ class SdeintHooks(Hooks):
         return NotImplemented
 
 
-def eval_sdeint(model, extra_state, extra=True, which=("torchsde/_core/sdeint.py", "sdeint"), logqp=False):
+class TimeAxis(Obj):
+    """The output times as an opaque vector: indexable, with a length, and usable in the element-wise arithmetic of the
+    entry points' sanity checks (whose results only feed warnings)."""
+
+    def __init__(self):
+        super().__init__("ts", getitem_hook=lambda i, o, idx, n, f: nf.sym(f"ts[{idx}]", True))
+        self.attrs["__len__"] = Intrinsic("len", lambda it, a, k, n, f: Fraction(3))
+
+    def sim_binop(self, op, l, r):
+        return nf.sym("ts-arithmetic")
+
+
+def eval_sdeint(model, extra_state, extra=True, which=("torchsde/_core/sdeint.py", "sdeint"), logqp=False, method="midpoint",
+                extra_kw=None):
     fi = model.func(*which)
     hooks = SdeintHooks()
     if logqp:
@@ -228,10 +243,11 @@ def eval_sdeint(model, extra_state, extra=True, which=("torchsde/_core/sdeint.py
             return _orig(interp, dotted, args, kwargs, node, f2)
         hooks.external_call = external_call
     it = Interp(model, hooks)
-    ts = Obj("ts", getitem_hook=lambda i, o, idx, n, f: nf.sym(f"ts[{idx}]", True))
-    kw = dict(sde=Obj("user-sde"), y0=nf.sym("y0"), ts=ts, bm=Obj("bm"), method="midpoint", dt=nf.sym("dt", True),
+    ts = TimeAxis()
+    kw = dict(sde=Obj("user-sde"), y0=nf.sym("y0"), ts=ts, bm=Obj("bm"), method=method, dt=nf.sym("dt", True),
               adaptive=False, rtol=nf.sym("rtol", True), atol=nf.sym("atol", True), dt_min=nf.sym("dt_min", True),
               options=None, names=None, logqp=logqp, extra=extra, extra_solver_state=extra_state)
+    kw.update(extra_kw or {})
     out = it.call_function(fi, [], kw)
     return out, hooks, fi
 
@@ -274,6 +290,21 @@ def r13_2(ctx):
         rep.check(ok_in, "R13.2", astq.loc(fi_q), f"{fi_q.key}::R13.2::resume::logqp",
                   f"{which[1]}(logqp=True, extra_solver_state=E) hands the solver `{shown}` (init calls: {len(hooks_q.init_calls)}): "
                   f"the supplied state must reach the stepping loop unchanged", "extra_solver_state reaches integrate unchanged")
+    # ... and whatever pair of forward / backward methods sdeint_adjoint is asked for: which backward method will be used has
+    # no say in the forward values of a resumed solve
+    adj = ("torchsde/_core/adjoint.py", "sdeint_adjoint")
+    for meth, adj_meth in (("midpoint", None), ("reversible_heun", None), ("reversible_heun", "midpoint"), ("reversible_heun", "euler_heun")):
+        try:
+            out_a, hooks_a, fi_a = eval_sdeint(model, E, extra=True, which=adj, method=meth, extra_kw={"adjoint_method": adj_meth})
+        except (SimRaise, AnalysisError) as e:
+            raise AnalysisError(f"R13.2: sdeint_adjoint(method={meth!r}, adjoint_method={adj_meth!r}) could not be evaluated: {e}")
+        flat = [x for a in hooks_a.apply_args for x in a if isinstance(x, Rat)]
+        ok_a = any(nf.equal(x, E[0]) for x in flat) and not hooks_a.init_calls
+        rep.check(ok_a, "R13.2", astq.loc(fi_a), f"{fi_a.key}::R13.2::resume::method={meth},adjoint_method={adj_meth}",
+                  f"sdeint_adjoint(method={meth!r}, adjoint_method={adj_meth!r}, extra_solver_state=E) hands the Function "
+                  f"`{[str(x) for x in flat][:6]}` (init calls: {len(hooks_a.init_calls)}): the supplied state is discarded or "
+                  f"replaced, so the forward values of a resumed solve depend on the backward method chosen",
+                  "extra_solver_state reaches the solve unchanged")
     ok = isinstance(out, tuple) and len(out) == 2 and nf.equal(out[0], nf.sym("YS_OUT")) and \
         isinstance(out[1], tuple) and len(out[1]) == 1 and nf.equal(out[1][0], nf.sym("EXTRA_OUT"))
     rep.check(ok, "R13.2", astq.loc(fi), f"{fi.key}::R13.2::returns-extra",
